@@ -77,6 +77,10 @@ var others = []otherT{
 	{id: "opost", kind: "other-method", method: oidc.AuthMethodPost, secret: "secret-opost", grants: true},
 	// near-miss of the authenticated id: cl's id extended by one character, registered with cl's secret
 	{id: cid + "2", kind: "same-secret-longer-id", method: oidc.AuthMethodBasic, secret: secret, grants: true},
+	// registered with an AuthMethod() the library does not implement (without / with a secret on file): naming such a
+	// client never authenticates it (appended, so earlier vectors keep their meaning)
+	{id: "otls", kind: "unimplemented-method", method: "tls_client_auth", grants: true},
+	{id: "ounset", kind: "unimplemented-method", method: "", secret: "secret-ounset", grants: true},
 }
 
 func otherByID(id string) *otherT {
@@ -111,7 +115,7 @@ func (o *otherT) registration() *refstore.Client {
 
 var (
 	idCallers = []string{"basic", "post", "jwt", "pub", "basic-wrong", "post-wrong", "jwt-foreign"}
-	idNamed   = []string{"absent", "own", "ob", "obn", "opub", "opubn", "ojwt", "opost", cid + "2", ghost, strings.ToUpper(cid)}
+	idNamed   = []string{"absent", "own", "ob", "obn", "opub", "opubn", "ojwt", "opost", cid + "2", ghost, strings.ToUpper(cid), "otls", "ounset"}
 	idChans   = []string{"body-last", "body-first", "query", "own-query", "allquery-last", "allquery-first"}
 	idOps     = []string{"devauth", "token:code", "token:refresh", "token:cc", "token:te", "token:device", "introspect", "revoke"}
 )
@@ -506,8 +510,15 @@ func pollRequest(id string, c idCase, dc string) *http.Request {
 		body = append(body, kv{"client_id", o.id}, kv{"client_secret", o.secret})
 	case oidc.AuthMethodPrivateKeyJWT:
 		body = append(body, kv{"client_assertion", otherAssertion(o)}, kv{"client_assertion_type", oidc.ClientAssertionTypeJWTAssertion})
-	default:
+	case oidc.AuthMethodNone:
 		body = append(body, kv{"client_id", o.id})
+	default:
+		// an unimplemented method: the client presents what it has on file
+		if o.secret != "" {
+			hdr["Authorization"] = rig.Basic(o.id, o.secret)
+		} else {
+			body = append(body, kv{"client_id", o.id})
+		}
 	}
 	return rawPost("/oauth/token", nil, body, hdr)
 }
